@@ -194,8 +194,9 @@ def run(ctx):
                 "2 m of a zone boundary, x both directions x height absent / given (-100..3000 m) / zero x covariance none / 3x3 (rank-1, "
                 "full, diagonal) / 3x1; each transformed by the pipeline and by the driver's own stepwise calls, then transformed back; "
                 "distinct = distinct (direction, height class, covariance class, grid point); the repository tests transform 2 points")
-    ctx.assumptions += ["the covariance clause is 'equals the stepwise composition vcv_local2cart -> conform7 -> vcv_cart2local' "
-                        "bit for bit, plus symmetric and PSD by principal minors; the pieces are decided in C06 (J Q J^T) and C16 (rotation)",
+    ctx.assumptions += ["covariance clauses: equals the stepwise composition vcv_local2cart -> conform7 -> vcv_cart2local bit for bit; symmetric and "
+                        "PSD by principal minors; VALUE equal (1e-9 of the trace) to the rotation / J Q J^T / rotation evaluated in the "
+                        "specification with the published GDA94<->GDA2020 parameter uncertainties",
                         "round trip compared in the grid when the zone is unchanged, otherwise in geographic coordinates with lower-bound "
                         "metres per degree (generous side)"]
 
